@@ -100,6 +100,11 @@ CHECKS = {
    technique='TLA+ models of a forwarded connection, the forwarding permission table and the SOCKS parser (specs/Forward) model-checked with TLC; behaviours/rows/inputs replayed on the in-memory network against real forwarders, listeners and a real server',
    text='TLC exhausts interleavings of data/EOF/close/reset from both ends incl. early data and late confirm/refusal and SSH cut (RelayFIFO, HalfClose, CloseBoth, Released, NoListenerLeft; four variants rejected), the 504-row permission table (request kind x key options x certificate x application answer x destination) and 4.7k SOCKS parser states; behaviours are replayed with manual packet delivery on local/remote/SOCKS4/4a/5/UNIX forwards with step-by-step comparison, every permission row runs against a real server with real key options/certificates, and every SOCKS input is fed whole, split and byte by byte.',
    note='Trusted: TLC, in-memory sockets of the virtual loop as TCP/UNIX ends (thorough adds real loopback sockets). Over-restrictive refusals are divergences, not violations.'),
+ 'C10': dict(
+   category='exploration', design_ref='DESIGN.md §5.10',
+   technique='TLA+ generative grammars and loop-progress model (specs/Hostile/Grammar.tla) enumerated/checked by TLC; every derivation materialised to bytes and fed to real endpoints and parsers under a meter (watchdog, iteration/output budgets, loop exception handler)',
+   text='TLC checks LoopProgress (every iteration of every peer-driven loop consumes input or ends the loop, for peer parameters 0..3; the pre-repair send loop is rejected) and enumerates the structured case space: 26 SSH message layouts x field x mutation (extreme numbers, inconsistent lengths, non-UTF-8, cut after a field, trailing bytes) in their protocol phase, DER trees with every tag and length form, plus fixed raw byte streams for both roles and seeded byte mutations; each input must be handled within the work budget, leave the event loop exception-free, and end in "carry on" or "connection closed with an error reported to the owner"; parsers must return or raise their documented error. A model checker does not decide "for every byte string": the verdict per input is the harness meter, hence exploration.',
+   note='Trusted: the meter constants (3 s watchdog, 2000 iterations, 4096+64*len bytes), TLC for the case space. SFTP/agent/trust-file parsers are covered by C14/C05/C17.'),
 }
 NOT_YET = 'check under construction in this round; see DESIGN.md §9'
 
